@@ -1,4 +1,6 @@
-/* C01 / C04 / C05: when_all's reference-count election (include/unifex/when_all.hpp).
+/* C01 / C04 / C05: when_all_range's reference-count election (include/unifex/when_all_range.hpp).
+ * Same protocol as when_all (specs/when_all) over a vector of N >= 0 children; element_complete() contains the
+ * delivery; an operation with zero children completes inside start() and never registers a stop callback.
  *
  * M1 on refCount_ and doneOrError_ under rely/guarantee with the ghost of DESIGN Appendix A.1:
  *   c = refCount_, k = children that have not released their unit, a = the stop callback is between
@@ -10,9 +12,9 @@
 #include <stddef.h>
 #include <stdint.h>
 
-struct when_all_op { size_t refCount_; _Bool doneOrError_; _Bool error_; /* error_.has_value() */ };
-struct element_receiver { struct when_all_op* op_; };
-struct cancel_operation { struct when_all_op* op_; };
+struct war_op { size_t refCount_; _Bool doneOrError_; _Bool error_; /* error_.has_value() */ size_t numHolders_; void* holders_; };
+struct element_receiver { struct war_op* op_; };
+struct cancel_operation { struct war_op* op_; };
 
 enum { ROLE_NONE, ROLE_CHILD, ROLE_CB };
 enum { K_NONE, K_VALUE, K_ERROR, K_DONE };                     /* what the verified child signals */
@@ -34,15 +36,16 @@ struct vf_ghost {
   unsigned completed; int channel;                /* completion signals delivered by this call */
   int cb_state; unsigned cb_constructs, cb_destructs;
   unsigned stopped_children, starts;
-  _Bool stop_seen; unsigned stop_polls;           /* result / number of polls of the receiver's token */
-  unsigned error_stores, value_stores; _Bool threw, dv_threw;
-  _Bool dead; struct when_all_op snap;            /* the operation may have been destroyed; its bytes then */
+  unsigned error_stores, value_stores, collects; _Bool threw, dv_threw;
+  size_t connected, destroyed; unsigned destroys, deallocs, rethrown; _Bool ctor_threw;   /* constructor */
+  _Bool dead; struct war_op snap;            /* the operation may have been destroyed; its bytes then */
 };
 static struct vf_ghost G;
-static struct when_all_op OP;
+static struct war_op OP;
 static struct element_receiver RCV;
 static struct cancel_operation CANCEL;
-static size_t VF_N;                               /* sizeof...(Senders) */
+static char vf_holders_obj;
+static size_t VF_N;                               /* senders.size() */
 #define VF_NMAX ((size_t)1 << 32)
 
 static void vf_guar(void* p, uint64_t o, uint64_t n);
@@ -53,7 +56,7 @@ static _Bool vf_nb(void) { return VF_nondet_bool() ? 1 : 0; }
 
 #define refCount_INIT (/*@EXPR refCount_init*/)
 #define doneOrError_INIT (/*@EXPR doneOrError_init*/)
-#define N_STATIC_ASSERT (/*@EXPR n_positive*/)
+#define numHolders_INIT (/*@EXPR numHolders_init*/)
 
 /* ---------------- protocol predicates (Appendix A.1) ---------------- */
 #define B(x) ((x) != 0)   /* a havocked _Bool may hold any byte: compare truth values only */
@@ -113,10 +116,10 @@ static void vf_interfere(void) {
 }
 /* the operation may be destroyed now: its bytes are arbitrary from here on and must not be touched */
 static void vf_die(void) {
-  struct when_all_op f; f.refCount_ = VF_nondet_size_t(); f.doneOrError_ = vf_nb(); f.error_ = vf_nb();
+  struct war_op f; f.refCount_ = VF_nondet_size_t(); f.doneOrError_ = vf_nb(); f.error_ = vf_nb(); f.numHolders_ = VF_nondet_size_t(); f.holders_ = VF_nondet_bool() ? (void*)&vf_holders_obj : NULL;
   OP = f; G.snap = f; G.dead = 1;
 }
-#define UNTOUCHED (!G.dead || (OP.refCount_ == G.snap.refCount_ && OP.doneOrError_ == G.snap.doneOrError_ && OP.error_ == G.snap.error_))
+#define UNTOUCHED (!G.dead || (OP.refCount_ == G.snap.refCount_ && OP.doneOrError_ == G.snap.doneOrError_ && OP.error_ == G.snap.error_ && OP.numHolders_ == G.snap.numHolders_ && OP.holders_ == G.snap.holders_))
 
 /* guarantee: checked at every atomic write of the verified call; updates the ghosts */
 static void vf_guar(void* p, uint64_t o, uint64_t n) {
@@ -161,7 +164,7 @@ void cancel_operation_call(struct cancel_operation* self);
 
 /* stopCallback_.construct(get_stop_token(receiver_), cancel_operation{*this}): registers; if the token is already
  * stopped the callback runs inline, on this thread, inside the constructor */
-static void EV_cb_construct(struct when_all_op* self) {
+static void EV_cb_construct(struct war_op* self) {
   VF_P(!G.dead, "stopCallback_.construct: " DEAD_MSG);
   VF_P(G.cb_state == CB_NONE, "the stop callback is constructed at most once");
   VF_P(G.completed == 0, "no registration on the receiver's token after the receiver was completed");
@@ -174,9 +177,9 @@ static void EV_cb_construct(struct when_all_op* self) {
     G.role = r; if (G.cb_state == CB_EXEC_ME) G.cb_state = CB_REGISTERED;
   }
 }
-/* ops_.start(): every child is started; children may complete synchronously, the last of them delivers the
+/* std::for_each(holders_, holders_ + numHolders_, start): every child is started; children may complete synchronously, the last of them delivers the
  * result and the receiver may destroy the operation before this returns */
-static void EV_start_children(struct when_all_op* self) {
+static void EV_start_children(struct war_op* self) {
   VF_P(!G.dead, "ops_.start(): " DEAD_MSG);
   VF_P(!G.started, "children are started once");
   VF_P(G.cb_state == CB_REGISTERED, "C04: the stop callback is registered before the children are started (afterwards the operation may already be gone; a stop request in between must not be lost)");
@@ -185,53 +188,87 @@ static void EV_start_children(struct when_all_op* self) {
   vf_die();
 }
 /* stopSource_.request_stop(): children observe the request; they may complete synchronously inside */
-static void EV_stop_children(struct when_all_op* self) {
+static void EV_stop_children(struct war_op* self) {
   VF_P(!G.dead, "stopSource_.request_stop(): " DEAD_MSG);
   VF_P(G.mine == 1, "C04: the children are told to stop while the caller pins the operation with a unit it owns (not after giving it up)");
   G.stopped_children++;
   vf_env();
 }
-static void EV_cb_destruct(struct when_all_op* self) {
+static void EV_cb_destruct(struct war_op* self) {
   VF_P(!G.dead, "stopCallback_.destruct(): " DEAD_MSG);
   VF_P(G.completed == 0, "C04: the stop callback is deregistered BEFORE the receiver is completed");
   VF_P(G.cb_state == CB_REGISTERED || G.cb_state == CB_EXEC_ME, "the stop callback is destructed exactly once, after it was constructed");
   VF_P(G.elected, "only the elected completer deregisters the stop callback (until then stop requests must reach the children)");
   G.cb_state = CB_DESTRUCTED; G.cb_destructs++;
 }
-static _Bool EV_stop_requested(struct when_all_op* self) {
-  VF_P(!G.dead && G.completed == 0, "the receiver's stop token is used only before the receiver is completed");
-  _Bool r = vf_nb();
-  G.stop_seen = r; G.stop_polls++;
-  return r;
-}
-static _Bool EV_error_has_value(struct when_all_op* self) {
+static _Bool EV_error_has_value(struct war_op* self) {
   VF_P(!G.dead, "error_.has_value(): " DEAD_MSG);
   VF_P(G.elected, "error_ is read only by the elected completer (every writer has released its unit)");
   return self->error_;
 }
+/* an operation without children never registers a callback and has nothing to elect: start() completes it */
+#define ZERO_START (G.role == ROLE_NONE && VF_N == 0 && !G.started && G.cb_state == CB_NONE && G.cb_constructs == 0)
 static void vf_complete(int ch) {
   VF_P(G.completed == 0, "C01: at most one completion signal per operation");
   VF_P(!G.dead, "completion signal: " DEAD_MSG);
-  VF_P(G.elected, "C01: the completion signal is delivered only by the party whose fetch_sub returned 1");
+  VF_P(G.elected || ZERO_START, "C01: the completion signal is delivered only by the party whose fetch_sub returned 1 (or by start() of an operation with zero children)");
   VF_P(G.cb_state != CB_REGISTERED, "C04: the stop callback is deregistered (destructed) before the receiver is completed");
   G.completed++; G.channel = ch;
   vf_die();   /* the receiver may destroy the operation */
 }
-static void EV_set_done(struct when_all_op* self) { VF_CANARY("set_done reachable"); vf_complete(CH_DONE); }
-static void EV_set_error_stored(struct when_all_op* self) {
+static void EV_set_done(struct war_op* self) { VF_CANARY("set_done reachable"); vf_complete(CH_DONE); }
+static void EV_set_error_stored(struct war_op* self) {
   VF_CANARY("set_error(stored error) reachable");
   VF_P(G.dead || self->error_, "C05: the error that is delivered has been stored");
   vf_complete(CH_ERROR_STORED);
 }
-static void EV_set_error_exception(struct when_all_op* self) { VF_CANARY("set_error(current_exception) reachable"); vf_complete(CH_ERROR_EXCEPTION); }
+static void EV_set_error_exception(struct war_op* self) { VF_CANARY("set_error(current_exception) reachable"); vf_complete(CH_ERROR_EXCEPTION); }
+/* start() of an operation with zero children: set_value(empty vector) */
+static void EV_set_value_empty(struct war_op* self) {
+  VF_CANARY("set_value(empty) reachable");
+  VF_P(ZERO_START, "C01: start() completes the operation itself only when there are no children");
+  vf_complete(CH_VALUE);
+}
+/* building the result vector (reserve / move every child's value): may throw; reads every holder */
+static _Bool EV_values_reserve(struct war_op* self) {
+  VF_P(!G.dead && G.completed == 0 && G.elected, "the result vector is built by the elected completer, before the completion signal");
+  VF_P(self->numHolders_ == VF_N, "the result has one slot per child");
+  if (VF_nondet_bool()) { G.dv_threw = 1; return 1; }
+  return 0;
+}
+static _Bool EV_values_collect(struct war_op* self) {
+  VF_P(!G.dead && G.completed == 0 && G.elected, "the children's values are read by the elected completer (every child has released its unit), before the completion signal");
+  VF_P(G.p.first == F_NONE, "C05: values are collected only when no child failed (every holder has a value)");
+  G.collects++;
+  if (VF_nondet_bool()) { G.dv_threw = 1; return 1; }
+  return 0;
+}
+/* constructor: allocate the holder array; placement-new of one holder = connect one child (may throw) */
+static void EV_allocate_holders(struct war_op* self) { self->holders_ = (void*)&vf_holders_obj; }
+static _Bool EV_connect_child(struct war_op* self, size_t index) {
+  VF_P(self->holders_ != NULL, "holders are constructed inside the allocated array");
+  VF_P(index == G.connected && index < VF_N, "children are connected in order, each index once");
+  if (VF_nondet_bool()) { G.ctor_threw = 1; return 1; }
+  G.connected++;
+  return 0;
+}
+static void EV_destroy_holders(struct war_op* self, size_t n) {
+  VF_P(self->holders_ != NULL && G.deallocs == 0, "holders are destroyed before the array is released");
+  VF_P(n == G.connected, "exactly the holders that were constructed are destroyed");
+  G.destroyed += n; G.destroys++;
+}
+static void EV_deallocate_holders(struct war_op* self) { VF_P(self->holders_ != NULL && G.deallocs == 0, "the holder array is released once"); G.deallocs++; }
+static void EV_rethrow(struct war_op* self) { G.rethrown++; }
 /* may throw: a throwing receiver set_value leaves the receiver un-completed */
-static _Bool EV_set_value(struct when_all_op* self) {
+static _Bool EV_set_value(struct war_op* self) {
   VF_CANARY("set_value reachable");
   if (VF_nondet_bool()) {
     VF_P(G.completed == 0 && !G.dead && G.elected && G.cb_state != CB_REGISTERED, "C01/C04: set_value attempted only by the elected completer, once, after deregistration");
+    VF_P(G.collects == 1, "C05: the values delivered are the children's values");
     G.dv_threw = 1;
     return 1;
   }
+  VF_P(G.collects == 1, "C05: the values delivered are the children's values");
   vf_complete(CH_VALUE);
   return 0;
 }
@@ -254,24 +291,21 @@ static void EV_store_error(struct element_receiver* self) {
 }
 
 /* ---------------- contracts ---------------- */
-#define EXPECTED_CHANNEL (G.stop_seen ? CH_DONE : G.p.first == F_ERROR ? CH_ERROR_STORED : G.p.first == F_DONE ? CH_DONE : (G.dv_threw ? CH_ERROR_EXCEPTION : CH_VALUE))
-#define A_DELIVER_VALUE OP, G.completed, G.channel, G.dead, G.snap, G.dv_threw
-#define A_DELIVER_RESULT A_DELIVER_VALUE, G.p, G.cb_state, G.cb_destructs, G.stop_seen, G.stop_polls
-#define A_ELEMENT_COMPLETE A_DELIVER_RESULT, G.mine, G.decs, G.dec_old, G.elected
+/* C05 for when_all_range: stored error if a child failed with an error first, else done if a child was done first,
+ * else the values (set_error(current_exception) if building / delivering them throws).  NOTE: unlike when_all there is
+ * no "done if the receiver's token is stopped" clause in this algorithm's element_complete(). */
+#define EXPECTED_CHANNEL (G.p.first == F_ERROR ? CH_ERROR_STORED : G.p.first == F_DONE ? CH_DONE : (G.dv_threw ? CH_ERROR_EXCEPTION : CH_VALUE))
+#define A_ELEMENT_COMPLETE OP, G.p, G.completed, G.channel, G.dead, G.snap, G.dv_threw, G.collects, G.cb_state, G.cb_destructs, G.mine, G.decs, G.dec_old, G.elected
 #define A_REQUEST_STOP A_ELEMENT_COMPLETE, G.incs, G.inc_old, G.stopped_children
 #define A_FAIL A_ELEMENT_COMPLETE, G.i_won, G.stopped_children, G.error_stores
 
-#define FRESH_CALL (G.incs == 0 && G.decs == 0 && !G.elected && G.completed == 0 && !G.dead && G.stop_polls == 0 && !G.dv_threw && G.cb_destructs == 0)
+#define FRESH_CALL (G.incs == 0 && G.decs == 0 && !G.elected && G.completed == 0 && !G.dead && !G.dv_threw && G.collects == 0 && G.cb_destructs == 0)
 /* ghost bookkeeping of the verified call is consistent with the protocol state */
 #define CALL_CONSISTENT ((!G.i_won || (G.role == ROLE_CHILD && G.p.first == (G.my_kind == K_ERROR ? F_ERROR : F_DONE))) \
-   && (G.i_won || !G.p.ep || G.p.k >= MY_CHILD_UNITS(G.role, G.mine) + 1))
-/* deliver_result is entered by the party whose decrement returned 1 */
-#define DELIVER_PRE (!G.dead && G.completed == 0 && G.elected && G.mine == 0 && INV_NOW && G.p.e && CALL_CONSISTENT \
-   && G.cb_destructs == 0 && G.stop_polls == 0 && !G.dv_threw \
-   && ((G.role == ROLE_CHILD && G.cb_state == CB_REGISTERED) || (G.role == ROLE_CB && G.cb_state == CB_EXEC_ME && G.p.f)))
+   && (G.i_won || !G.p.ep || G.p.k >= MY_CHILD_UNITS(G.role, G.mine) + 1) && OP.numHolders_ == VF_N && VF_N >= 1)
 /* element_complete is entered by a party that owns one unit and has done what it must do before releasing it */
-#define OWNER_PRE (G.decs == 0 && !G.elected && G.completed == 0 && !G.dead && G.stop_polls == 0 && !G.dv_threw && G.cb_destructs == 0 && INV_NOW && CALL_CONSISTENT \
-   && ((G.role == ROLE_CHILD && G.p.k >= 1 && G.started && G.cb_state == CB_REGISTERED) || (G.role == ROLE_CB && G.p.a && G.cb_state == CB_EXEC_ME && !G.i_won)) \
+#define OWNER_PRE (G.decs == 0 && !G.elected && G.completed == 0 && !G.dead && !G.dv_threw && G.collects == 0 && G.cb_destructs == 0 && INV_NOW && CALL_CONSISTENT \
+   && ((G.role == ROLE_CHILD && G.p.k >= 1 && G.started && G.cb_state == CB_REGISTERED) || (G.role == ROLE_CB && G.p.a && G.p.f && G.cb_state == CB_EXEC_ME && !G.i_won)) \
    && (!G.i_won || (G.stopped_children >= 1 && !G.p.ep)) && (G.role != ROLE_CB || G.stopped_children >= 1))
 #define CHILD_PRE (FRESH_CALL && INV_NOW && CALL_CONSISTENT && G.role == ROLE_CHILD && G.mine == 1 && G.started && !G.i_won && G.p.k >= 1 \
    && G.cb_state == CB_REGISTERED && G.stopped_children == 0 && G.error_stores == 0)
@@ -280,8 +314,8 @@ static void EV_store_error(struct element_receiver* self) {
  * delivered iff that decrement returned 1; then on the channel C05 prescribes, after deregistration (C04);
  * nothing is touched once the operation may be gone */
 #define RELEASE_POST (G.decs == 1 && G.mine == 0 && G.completed <= 1 && ((G.completed == 1) == (G.dec_old == 1)) \
-   && (G.completed == 1 ==> (G.elected && G.channel == EXPECTED_CHANNEL && G.cb_state == CB_DESTRUCTED && G.cb_destructs == 1 && G.stop_polls == 1)) \
-   && (G.completed == 0 ==> (G.cb_destructs == 0 && G.stop_polls == 0)) \
+   && (G.completed == 1 ==> (G.elected && G.channel == EXPECTED_CHANNEL && G.cb_state == CB_DESTRUCTED && G.cb_destructs == 1)) \
+   && (G.completed == 0 ==> (G.cb_destructs == 0 && G.collects == 0)) \
    && (G.dec_old != 1 || (G.p.e && G.p.k == 0)) && B(G.dead) == (G.completed == 1 || G.started) && UNTOUCHED && (G.dead || INV_NOW))
 /* what the environment cannot undo while / after the call releases its unit */
 #define RELEASE_FRAME ((__CPROVER_old(G.p.first) == F_NONE || G.p.first == __CPROVER_old(G.p.first)) && (!G.i_won || B(G.p.ep) == B(__CPROVER_old(G.p.ep))) \
@@ -290,37 +324,30 @@ static void EV_store_error(struct element_receiver* self) {
 /* the stop callback (C04): increments once; after the election it does nothing else; otherwise it tells the
  * children to stop while it holds its unit and then releases it like any other owner */
 #define CALLBACK_POST (G.incs == 1 && G.p.f && UNTOUCHED && (G.dead || INV_NOW) \
-   && (G.inc_old == 0 ==> (G.p.e && G.p.z && G.decs == 0 && G.stopped_children == 0 && G.completed == 0 && !G.dead && G.cb_destructs == 0 && G.stop_polls == 0 && G.mine == 0)) \
+   && (G.inc_old == 0 ==> (G.p.e && G.p.z && G.decs == 0 && G.stopped_children == 0 && G.completed == 0 && !G.dead && G.cb_destructs == 0 && G.mine == 0)) \
    && (G.inc_old != 0 ==> (G.stopped_children == 1 && RELEASE_POST)))
 /* a failing child (C04/C05): the latch is set; if this child is the first failure it has stored its error (error
  * kind only) and told the children to stop -- both before releasing its unit (order checked at the events) */
 #define FAIL_POST(kindF) (G.p.first != F_NONE && (G.i_won ==> (G.p.first == (kindF) && G.stopped_children == 1 && G.error_stores == ((kindF) == F_ERROR ? 1u : 0u) && !G.p.ep)) \
    && (!G.i_won ==> (G.error_stores == 0 && G.stopped_children == 0)))
 
-void when_all_op_deliver_value(struct when_all_op* self)
-__CPROVER_requires(self == &OP && !G.dead && G.completed == 0 && G.elected && G.cb_state == CB_DESTRUCTED && !G.dv_threw)
-__CPROVER_assigns(A_DELIVER_VALUE)
-__CPROVER_ensures(G.completed == 1 && G.dead && UNTOUCHED) /* exactly one completion, nothing touched afterwards */
-__CPROVER_ensures(G.channel == (G.dv_threw ? CH_ERROR_EXCEPTION : CH_VALUE)) /* a throwing set_value turns into set_error(current_exception) */
-/*@BODY deliver_value*/
+/* constructor: connects every sender; afterwards numHolders_ == senders.size() == the initial refCount_;
+ * if a connect throws, exactly the constructed holders are destroyed, the array released, the exception rethrown */
+void war_op_ctor(struct war_op* self)
+__CPROVER_requires(self == &OP && OP.numHolders_ == numHolders_INIT && G.connected == 0 && G.destroyed == 0 && G.destroys == 0 && G.deallocs == 0 && G.rethrown == 0 && !G.ctor_threw && VF_N <= VF_NMAX)
+__CPROVER_assigns(OP.numHolders_, OP.holders_, G.connected, G.destroyed, G.destroys, G.deallocs, G.rethrown, G.ctor_threw)
+__CPROVER_ensures(!G.ctor_threw ==> (OP.numHolders_ == VF_N && G.connected == VF_N && OP.holders_ != NULL && G.destroys == 0 && G.deallocs == 0 && G.rethrown == 0)) /* one holder per sender: numHolders_ == senders.size() */
+__CPROVER_ensures(G.ctor_threw ==> (G.destroys == 1 && G.destroyed == G.connected && G.deallocs == 1 && OP.holders_ == NULL && G.rethrown == 1)) /* failed construction is unwound exactly */
+/*@BODY ctor*/
 
-void when_all_op_deliver_result(struct when_all_op* self)
-__CPROVER_requires(self == &OP && DELIVER_PRE)
-__CPROVER_assigns(A_DELIVER_RESULT)
-__CPROVER_ensures(G.completed == 1 && G.dead && UNTOUCHED) /* C01: exactly one completion; the dead operation is not touched */
-__CPROVER_ensures(G.cb_state == CB_DESTRUCTED && G.cb_destructs == 1) /* C04 */
-__CPROVER_ensures(G.stop_polls == 1 && G.channel == EXPECTED_CHANNEL) /* C05: receiver stop > stored error > done > values */
-__CPROVER_ensures(G.p.e && G.p.k == 0 && !G.p.ep && G.p.first == __CPROVER_old(G.p.first) && (!__CPROVER_old(G.p.f) || G.p.f)) /* frame: the election is final, the failure latch frozen */
-/*@BODY deliver_result*/
-
-void when_all_op_element_complete(struct when_all_op* self)
+void war_op_element_complete(struct war_op* self)
 __CPROVER_requires(self == &OP && G.mine == 1 && OWNER_PRE) /*P*/
 __CPROVER_assigns(A_ELEMENT_COMPLETE)
 __CPROVER_ensures(RELEASE_POST)
 __CPROVER_ensures(RELEASE_FRAME)
 /*@BODY element_complete*/
 
-void when_all_op_request_stop(struct when_all_op* self)
+void war_op_request_stop(struct war_op* self)
 __CPROVER_requires(self == &OP && CALLBACK_PRE)
 __CPROVER_assigns(A_REQUEST_STOP)
 __CPROVER_ensures(CALLBACK_POST)
@@ -334,14 +361,16 @@ __CPROVER_ensures(CALLBACK_POST)
 __CPROVER_ensures((G.started || G.p.k == __CPROVER_old(G.p.k)) && (G.completed == 1 || G.cb_state == __CPROVER_old(G.cb_state))) /* frame */
 /*@BODY cancel_call*/
 
-void when_all_op_start(struct when_all_op* self)
-__CPROVER_requires(self == &OP && FRESH_CALL && INV_NOW && G.role == ROLE_NONE && G.mine == 0 && !G.i_won && !G.started && G.starts == 0)
+void war_op_start(struct war_op* self)
+__CPROVER_requires(self == &OP && FRESH_CALL && G.role == ROLE_NONE && G.mine == 0 && !G.i_won && !G.started && G.starts == 0)
 __CPROVER_requires(G.cb_state == CB_NONE && G.cb_constructs == 0 && G.stopped_children == 0)
-__CPROVER_requires(OP.refCount_ == refCount_INIT && G.p.k == VF_N && N_STATIC_ASSERT && VF_N <= VF_NMAX && !G.p.a && !G.p.e && !G.p.f && !G.p.z) /* freshly constructed */
+__CPROVER_requires(OP.refCount_ == refCount_INIT && OP.numHolders_ == VF_N && G.p.k == VF_N && VF_N <= VF_NMAX && !G.p.a && !G.p.e && !G.p.f && !G.p.z) /* freshly constructed (ctor_loop, lemma_init) */
+__CPROVER_requires(VF_N == 0 || INV_NOW)
 __CPROVER_assigns(A_REQUEST_STOP, G.role, G.cb_state, G.cb_constructs, G.started, G.starts)
-__CPROVER_ensures(G.completed == 0) /* C01: start() itself delivers nothing; a completion during start() comes from a child's own completion */
-__CPROVER_ensures(G.cb_constructs == 1 && G.cb_state == CB_REGISTERED && G.cb_destructs == 0) /* C04: registered on the receiver's token, not deregistered by start() */
-__CPROVER_ensures(G.starts == 1 && G.started && G.dead && UNTOUCHED) /* children started once; nothing touched after the last child was started */
+__CPROVER_ensures(VF_N == 0 ==> (G.completed == 1 && G.channel == CH_VALUE && G.cb_constructs == 0 && G.cb_state == CB_NONE && G.starts == 0 && G.incs == 0 && G.decs == 0)) /* C01: zero children: completes immediately, exactly once, with the empty value; no callback registered */
+__CPROVER_ensures(VF_N >= 1 ==> G.completed == 0) /* C01: otherwise start() itself delivers nothing; a completion during start() comes from a child's own completion */
+__CPROVER_ensures(VF_N >= 1 ==> (G.cb_constructs == 1 && G.cb_state == CB_REGISTERED && G.cb_destructs == 0 && G.starts == 1 && G.started)) /* C04: registered on the receiver's token; children started once */
+__CPROVER_ensures(G.dead && UNTOUCHED) /* nothing touched after the completion / after the last child was started */
 __CPROVER_ensures(G.incs == 0 || G.stopped_children == 1) /* C04: a stop request that arrived before start() reaches the (not yet started) children's token */
 /*@BODY start*/
 
@@ -370,47 +399,40 @@ __CPROVER_ensures(G.threw ==> FAIL_POST(F_ERROR)) /* C05: a throwing value store
 /* ---------------- harnesses ---------------- */
 static void h_havoc(void) {
   VF_N = VF_nondet_size_t();
-  pst_set(pst_nondet());
+  pst_set(pst_nondet()); OP.numHolders_ = VF_nondet_size_t();
   G.started = vf_nb(); G.role = VF_nondet_int(); G.mine = VF_nondet_u32(); G.my_kind = VF_nondet_int();
   G.i_won = vf_nb(); G.incs = VF_nondet_u32(); G.decs = VF_nondet_u32(); G.inc_old = VF_nondet_size_t(); G.dec_old = VF_nondet_size_t();
   G.elected = vf_nb(); G.completed = VF_nondet_u32(); G.channel = CH_NONE;
   G.cb_state = VF_nondet_int(); G.cb_constructs = VF_nondet_u32(); G.cb_destructs = VF_nondet_u32();
   G.stopped_children = VF_nondet_u32(); G.starts = VF_nondet_u32();
-  G.stop_seen = 0; G.stop_polls = VF_nondet_u32();
-  G.error_stores = VF_nondet_u32(); G.value_stores = VF_nondet_u32(); G.threw = vf_nb(); G.dv_threw = vf_nb();
+  G.error_stores = VF_nondet_u32(); G.value_stores = VF_nondet_u32(); G.collects = VF_nondet_u32(); G.threw = vf_nb(); G.dv_threw = vf_nb();
+  G.connected = VF_nondet_size_t(); G.destroyed = VF_nondet_size_t(); G.destroys = VF_nondet_u32(); G.deallocs = VF_nondet_u32(); G.rethrown = VF_nondet_u32(); G.ctor_threw = vf_nb();
+  OP.holders_ = NULL;
   G.dead = vf_nb(); G.snap = OP;
   RCV.op_ = &OP; CANCEL.op_ = &OP;
 }
-void h_deliver_value(void) {
-  h_havoc(); when_all_op_deliver_value(&OP);
-  VF_CANARY("after deliver_value");
-  if (G.channel == CH_VALUE) { VF_CANARY("deliver_value: value channel"); } else { VF_CANARY("deliver_value: exception channel"); }
-}
-void h_deliver_result(void) {
-  h_havoc(); when_all_op_deliver_result(&OP);
-  VF_CANARY("after deliver_result");
-  if (G.channel == CH_DONE && G.stop_seen) { VF_CANARY("deliver_result: done because the receiver's token is stopped"); }
-  if (G.channel == CH_DONE && !G.stop_seen) { VF_CANARY("deliver_result: done because a child was done first"); }
-  if (G.channel == CH_ERROR_STORED) { VF_CANARY("deliver_result: stored error"); }
-  if (G.channel == CH_VALUE) { VF_CANARY("deliver_result: values"); }
-  if (G.cb_state == CB_DESTRUCTED && G.role == ROLE_CB) { VF_CANARY("deliver_result from inside the stop callback"); }
-}
+void h_ctor(void) { h_havoc(); war_op_ctor(&OP); VF_CANARY("after the constructor"); if (VF_N == 0) { VF_CANARY("constructor with zero senders"); } if (G.ctor_threw) { VF_CANARY("constructor can throw"); } }
 void h_element_complete(void) {
-  h_havoc(); when_all_op_element_complete(&OP);
+  h_havoc(); war_op_element_complete(&OP);
   VF_CANARY("after element_complete");
   if (G.completed) { VF_CANARY("element_complete can be the elected completer"); } else { VF_CANARY("element_complete can be a non-last owner"); }
   if (G.role == ROLE_CB && G.completed) { VF_CANARY("the stop callback can be the elected completer"); }
+  if (G.channel == CH_DONE) { VF_CANARY("element_complete: done because a child was done first"); }
+  if (G.channel == CH_ERROR_STORED) { VF_CANARY("element_complete: stored error"); }
+  if (G.channel == CH_VALUE) { VF_CANARY("element_complete: values"); }
+  if (G.channel == CH_ERROR_EXCEPTION) { VF_CANARY("element_complete: exception while building / delivering the values"); }
 }
 void h_request_stop(void) {
-  h_havoc(); when_all_op_request_stop(&OP);
+  h_havoc(); war_op_request_stop(&OP);
   VF_CANARY("after request_stop");
   if (G.inc_old == 0) { VF_CANARY("request_stop after the election (dead increment)"); }
   if (G.completed) { VF_CANARY("request_stop can deliver the result"); }
 }
 void h_cancel_call(void) { h_havoc(); cancel_operation_call(&CANCEL); VF_CANARY("after cancel_operation::operator()"); }
 void h_start(void) {
-  h_havoc(); when_all_op_start(&OP);
+  h_havoc(); war_op_start(&OP);
   VF_CANARY("after start");
+  if (VF_N == 0) { VF_CANARY("start with zero children"); } else { VF_CANARY("start with children"); }
   if (G.incs) { VF_CANARY("start with the token already stopped"); }
 }
 void h_er_set_value(void) {
@@ -480,12 +502,13 @@ void lemma_rely(void) {
 }
 void lemma_init(void) {
   VF_N = VF_nondet_size_t();
-  __CPROVER_assume(N_STATIC_ASSERT && VF_N <= VF_NMAX);
+  __CPROVER_assume(VF_N >= 1 && VF_N <= VF_NMAX);   /* an operation with zero children takes no part in the protocol: start() completes it (unit start) */
   struct pst s; s.c = refCount_INIT; s.doe = doneOrError_INIT; s.es = 0; /* std::optional: default-constructed empty */
   s.g.k = VF_N; s.g.a = 0; s.g.e = 0; s.g.z = 0; s.g.f = 0; s.g.ep = 0; s.g.first = F_NONE;
   VF_CANARY("lemma_init reachable");
-  VF_P(INV(s), "lemma: a freshly constructed operation satisfies Inv with k = N = sizeof...(Senders) (refCount_ initialiser)");
-  VF_P(s.c == VF_N && s.c >= 1, "lemma: refCount_ starts at the number of children, which is at least 1");
+  VF_P(INV(s), "lemma: a freshly constructed operation with N >= 1 children satisfies Inv with k = N = senders.size() (refCount_ initialiser)");
+  VF_P(s.c == VF_N, "lemma: refCount_ starts at the number of children");
+  VF_P(numHolders_INIT == 0, "lemma: numHolders_ starts at 0 (the constructor loop counts it up to senders.size(): unit ctor)");
 }
 /* C05: first failure wins, and what the elected completer reads determines it */
 void lemma_first_failure(void) {
